@@ -44,6 +44,7 @@ def annotation(form, leaf):
         "tupleUnion": Tuple[Union[tp, other], ...], "tokensTuple": Tuple[tp, ...], "tupleOfTokens": Tuple[Tuple[tp, ...], ...],
         "union": Union[tp, other], "optionalUnion": Optional[Union[tp, other]], "pep585List": list[tp], "pep604Optional": tp | None,
         "pep604Union": tp | other,
+        "unionNumeric": Union[str, int, float], "listUnionNumeric": List[Union[str, int, float]],
     }[form]
 
 
@@ -56,6 +57,8 @@ def values(form, leaf):
         "tokensList": [[v0, v1], [v1]], "listOfTokens": [[[v0], [v0, v1]], []], "tuple": [(), (v0, v1, v0)], "optionalTuple": [None, (v0,)],
         "tupleUnion": [(v0, o, v1)], "tokensTuple": [(v0, v1), (v1,)], "tupleOfTokens": [((v0,), (v0, v1)), ()],
         "union": [v0, o], "optionalUnion": [None, v0, o], "pep585List": [[], [v0, v1]], "pep604Optional": [None, v1], "pep604Union": [v1, o],
+        # every member type with a value only IT can hold: a non-integral float, an int, a string that is no number
+        "unionNumeric": [2.5, 2, -0.25, "x y", 1e300], "listUnionNumeric": [[2.5, 2, "x y", -7, 0.5]],
     }[form]
 
 
@@ -105,6 +108,8 @@ def run_matrix(ctx, want: str):
     for case in cases(ctx):
         if not case["documented"]:
             continue
+        if case["form"] in ("unionNumeric", "listUnionNumeric") and case["leaf"] != "int":
+            continue        # these forms do not depend on the leaf type: once is enough
         info = {"xml_type": case["xmlType"], "form": case["form"], "leaf": case["leaf"]}
         try:
             clazz = model(case)
